@@ -351,9 +351,8 @@ def _run_hist(case):
                     continue
                 if flags == "tidy":
                     t = plugin.listing(d, text=True)["test_h.py"]
-                    if t.count("from inline_snapshot import external\n") != 1:
-                        V("harness-tidy-edit-impossible", t[:300])
-                        break
+                    if t.count("from inline_snapshot import external\n") == 0:
+                        continue  # nothing was added, nothing to tidy
                     plugin.write_files(d, {"test_h.py": t.replace("from inline_snapshot import external\n", "")})
                     continue
                 r = plugin.session(d, ["--inline-snapshot=" + ",".join(flags)] if flags else [])
